@@ -3,7 +3,12 @@ from __future__ import annotations
 
 import random
 
+from . import pools as _P
 from .zoo import ZooInfo
+
+
+def _psize(f) -> int:
+    return len(_P.POOLSETS["plain"][f["pool"]])
 
 
 def random_heap(rng: random.Random, zi: ZooInfo, nobj: int, classes: list[str], max_tuple: int = 3,
@@ -33,7 +38,7 @@ def random_heap(rng: random.Random, zi: ZooInfo, nobj: int, classes: list[str], 
             for f in zi.fields(c):
                 n = f["n"]
                 if f["kind"] == "prop":
-                    rec["p"][n] = 0 if not f["init"] else rng.randrange(natoms)
+                    rec["p"][n] = 0 if not f["init"] else rng.randrange(min(natoms, _psize(f)))
                 elif f["kind"] == "one":
                     t = pick(zi.allowed_classes(f))
                     if t is None:
